@@ -445,3 +445,76 @@ func eqFacts(b *ssa.BasicBlock) [][2]ssa.Value {
 	}
 	return out
 }
+
+// ---- logical inputs: parameters, and fields of by-value struct parameters ------------------------------
+
+func isUint64T(t types.Type) bool {
+	b, ok := t.Underlying().(*types.Basic)
+	return ok && b.Kind() == types.Uint64
+}
+
+func isNetAddrT(t types.Type) bool { return t.String() == "net.Addr" }
+
+// isInputOfType: v is one of fn's inputs of a type satisfying pred: a parameter, or a field of a struct
+// parameter passed by value (related parameters grouped into a small struct).
+func isInputOfType(fn *ssa.Function, v ssa.Value, pred func(types.Type) bool) bool {
+	v = core.Unwrap(v)
+	if p, ok := v.(*ssa.Parameter); ok && p.Parent() == fn && pred(p.Type()) {
+		return true
+	}
+	if f, ok := v.(*ssa.Field); ok {
+		if p, ok := f.X.(*ssa.Parameter); ok && p.Parent() == fn && pred(f.Type()) {
+			return true
+		}
+	}
+	if ld, ok := v.(*ssa.UnOp); ok && ld.Op == token.MUL {
+		if fa, ok := ld.X.(*ssa.FieldAddr); ok && pred(core.FieldOfAddr(fa).Type()) {
+			if al, ok := fa.X.(*ssa.Alloc); ok {
+				if sv, ok := aggregateSingleStore(al); ok {
+					if p, ok := sv.(*ssa.Parameter); ok && p.Parent() == fn {
+						return true
+					}
+				}
+			}
+		}
+	}
+	return false
+}
+
+// callInputOfType: the caller-side value of such an input at call ci: the argument of that type, or what
+// was stored into the field of that type of a struct argument built for the call. nil if none or ambiguous.
+func callInputOfType(ci ssa.CallInstruction, pred func(types.Type) bool) ssa.Value {
+	var out []ssa.Value
+	for _, a := range core.CallArgs(ci) {
+		if pred(a.Type()) {
+			out = append(out, a)
+			continue
+		}
+		if _, isStruct := a.Type().Underlying().(*types.Struct); !isStruct {
+			continue
+		}
+		ld, ok := a.(*ssa.UnOp)
+		if !ok {
+			continue
+		}
+		al, ok := ld.X.(*ssa.Alloc)
+		if !ok {
+			continue
+		}
+		for _, r := range *al.Referrers() {
+			fa, ok := r.(*ssa.FieldAddr)
+			if !ok || !pred(core.FieldOfAddr(fa).Type()) {
+				continue
+			}
+			for _, u := range *fa.Referrers() {
+				if st, ok := u.(*ssa.Store); ok && st.Addr == ssa.Value(fa) {
+					out = append(out, st.Val)
+				}
+			}
+		}
+	}
+	if len(out) == 1 {
+		return out[0]
+	}
+	return nil
+}
